@@ -149,15 +149,21 @@ func (e *Encoder) writeValue(val reflect.Value, tagType byte) error {
 				for elem.Kind() == reflect.Interface {
 					elem = elem.Elem()
 				}
+				// every element must have the tag type the array is made of
+				want := TagInt
+				if tagType == TagLongArray {
+					want = TagLong
+				}
+				if !elem.IsValid() || getTagTypeByType(elem.Type()) != want {
+					return errors.New("value of kind " + elem.Kind().String() + " is not allowed in Tag 0x" + strconv.FormatUint(uint64(tagType), 16))
+				}
 				var err error
 				var v int64
 				switch elem.Kind() {
-				case reflect.Int, reflect.Int8, reflect.Int16, reflect.Int32, reflect.Int64:
+				case reflect.Int32, reflect.Int64:
 					v = elem.Int()
-				case reflect.Uint, reflect.Uint8, reflect.Uint16, reflect.Uint32, reflect.Uint64:
+				case reflect.Uint32, reflect.Uint64:
 					v = int64(elem.Uint())
-				default:
-					return errors.New("value typed " + elem.Type().String() + "is not allowed in Tag 0x" + strconv.FormatUint(uint64(tagType), 16))
 				}
 				if tagType == TagIntArray {
 					err = writeInt32(e.w, int32(v))
